@@ -703,9 +703,9 @@ class Doman(_InstallWrapper):
     insoptions_default = "-m0644"
 
     arg_parser = IpcArgumentParser(parents=(_InstallWrapper.arg_parser,))
-    arg_parser.add_argument("-i18n", action="store_true", default="")
+    arg_parser.add_argument("-i18n", default="")
 
-    detect_lang_re = re.compile(r"^(\w+)\.([a-z]{2}([A-Z]{2})?)\.(\w+)$")
+    detect_lang_re = re.compile(r"^(\w+)\.([a-z]{2}(_[A-Z]{2})?)\.(\w+)$")
     valid_mandir_re = re.compile(r"man[0-9n](f|p|pm)?$")
 
     def __init__(self, *args, **kwargs):
@@ -726,13 +726,15 @@ class Doman(_InstallWrapper):
             name = basename
             mandir = f"man{ext[1:]}"
 
-            if self.language_override and self.opts.i18n:
-                mandir = pjoin(self.opts.i18n, mandir)
-            elif self.language_detect:
+            match = None
+            if self.language_detect:
                 match = self.detect_lang_re.match(basename)
-                if match:
-                    name = f"{match.group(1)}.{match.group(4)}"
-                    mandir = pjoin(match.group(2), mandir)
+            # -i18n only beats a language code in the file name from EAPI 4 on
+            if self.opts.i18n and (self.language_override or not match):
+                mandir = pjoin(self.opts.i18n.lstrip(os.path.sep), mandir)
+            elif match:
+                name = f"{match.group(1)}.{match.group(4)}"
+                mandir = pjoin(match.group(2), mandir)
 
             if self.valid_mandir_re.match(os.path.basename(mandir)):
                 if mandir not in dirs:
